@@ -251,7 +251,7 @@ func LiveCase(c *core.Case, prop string) {
 		powers[i] = 20 + 10*int64(r.Intn(3))
 	}
 	al := NewAlarms()
-	net, res, err := RunLive(LiveOpts{N: n, Powers: powers, Heights: uint64(6 + r.Intn(6)), MaxWall: 150 * time.Second, Fuzz: r.Intn(2) == 0}, al)
+	net, res, err := RunLive(LiveOpts{N: n, Powers: powers, Heights: uint64(6 + r.Intn(6)), MaxWall: 120 * time.Second, Fuzz: false}, al)
 	if net != nil {
 		defer net.Close()
 	}
